@@ -237,8 +237,8 @@ func TestVerifC11TCP(t *testing.T) {
 	} else {
 		plans = []plan{
 			{seqs: append(vkAllKindSeqs(small, 1), vkAllKindSeqs(small, 2)...), allPos: true, maxCuts: 3, closeCut: 2},
+			{seqs: vkAllKindSeqs(all[:8], 4), maxCuts: 1, closeCut: 1},
 			{seqs: append(append(vkAllKindSeqs(all, 1), vkAllKindSeqs(all, 2)...), vkAllKindSeqs(all, 3)...), maxCuts: 5, closeCut: 3},
-			{seqs: vkAllKindSeqs(all[:8], 4), maxCuts: 3, closeCut: 2},
 		}
 	}
 	item := 0
